@@ -22,6 +22,7 @@ CONSTANTS
   Senders = {"u1"}
   Recipients = {"u1", "u2", "feepool"}
   MaxSteps = 5
+  DonateAlso = {}
   WithUni = FALSE
 VIEW ViewDepth
 INVARIANTS
@@ -39,4 +40,10 @@ PROPERTIES
   Act_C02_RemoveGivesAtLeast
   Act_C02_Supply
   Act_Rejected_NoEffect
+  Act_X01_WedgedForever
+  Act_X02_RouteBalanced
+  Act_X02_RoundTripNoGain
+  Act_X02_BlockedUntouched
+  Act_X02_ModuleOnlyGifts
+  Act_X02_DonateFrame
 CHECK_DEADLOCK FALSE
